@@ -65,7 +65,7 @@ def generate(rng, tier):
             'short_seed': rng.getrandbits(32) if rng.random() < 0.3 else None, 'debug_log': rng.random() < 0.05,
             'memmap': rng.random() < 0.12, 'threads': threads,
             # the caller keeps the channel objects and lets go of the lazily opened TdmsFile
-            'drop_file': rng.random() < 0.1}
+            'drop_file': rng.random() < 0.1, 'touch': rng.random() < 0.1}
 
 
 def _sig(spec):
@@ -109,7 +109,8 @@ def execute(case):
             if kw:
                 res.probe('memmap')
             eager = lib.TdmsFile.read(st.source('simstream', 'w.tdms'), raw_timestamps=raw_ts, **kw)
-            lazy = lib.TdmsFile.open(st.source('simstream', 'w.tdms'), raw_timestamps=raw_ts, **kw)
+            lsrc = st.source('simstream', 'w.tdms')
+            lazy = lib.TdmsFile.open(lsrc, raw_timestamps=raw_ts, **kw)
         except Exception as exc:
             # opening is C01's / C06's business
             res.skipped_ops += len(case['ops'])
@@ -146,6 +147,14 @@ def execute(case):
             if case['cut'] is not None and op['op'] == 'read_data' and w.chans[op['ch']].count > n and (
                     op['length'] is None or op['offset'] + op['length'] >= n):
                 res.probe('window-in-truncated-last-chunk')
+            if case.get('touch') and i % 2:
+                # the caller uses the stream it handed to TdmsFile.open itself between two reads
+                try:
+                    lsrc.seek((i * 7919) % (len(data) + 1))
+                    lsrc.read(4)
+                    res.probe('caller-moved-its-stream')
+                except (OSError, ValueError):
+                    pass
             for mode, tf in (('lazy', lazy), ('eager', eager)):
                 v, g, exc = _lazy.check_op(tf, w, op, full, 'C04', mode, res=res, keeper=keeper if mode == 'lazy' else None,
                                            scribble=(mode == 'lazy' and i % 3 == 0))
